@@ -3,7 +3,7 @@ import os, subprocess, json
 import vlib, gadata
 
 
-def one(exe, depth, modes, with_data, d, tag):
+def one(exe, depth, modes, with_data, d, tag, prefix=None):
     out = os.path.join(d, 'out_%s.json' % tag)
     env = dict(os.environ)
     if with_data:
@@ -11,7 +11,7 @@ def one(exe, depth, modes, with_data, d, tag):
         env['BXDECAY0_DBD_GA_DATA_DIR'] = gadir
     else:
         env.pop('BXDECAY0_DBD_GA_DATA_DIR', None)
-    r = subprocess.run([exe, '--depth', str(depth), '--modes', modes, '--with-ga-data', '1' if with_data else '0', '--out', out], env=env,
+    r = subprocess.run([exe, '--depth', str(depth), '--modes', modes, '--with-ga-data', '1' if with_data else '0', '--out', out] + (['--prefix', prefix] if prefix else []), env=env,
                        timeout=3400, stdout=subprocess.PIPE, stderr=subprocess.PIPE, text=True)
     if r.returncode == 77 and os.path.exists(out + '.crash'):
         txt = open(out + '.crash').read().split('\n', 1)
@@ -22,6 +22,16 @@ def one(exe, depth, modes, with_data, d, tag):
     return json.load(open(out))
 
 
+# start states other than a newly constructed object: right after an initialisation that was refused (for four different
+# reasons) on a windowed, window-capable configuration - what such a failure leaves behind must not leak into the next try
+PREFIXES = [
+    'set_category(dbd);set_isotope(Xx);set_level(0);set_mode(4);set_esum(0.5,1.5);initialize',
+    'set_category(dbd);set_isotope(Mo100);set_level(99);set_mode(4);set_esum(0.5,1.5);initialize',
+    'set_category(dbd);set_isotope(Mo100);set_level(1);set_mode(4);set_esum(0.5,1.5);initialize',
+    'set_category(dbd);set_isotope(Mo100);set_level(0);set_mode(4);set_esum(1.5,0.5);initialize',
+]
+
+
 def run(tier, rep):
     exe = vlib.build_harness('checks/c09.cc', 'plain')
     d = vlib.scratch('c09')
@@ -29,13 +39,15 @@ def run(tier, rep):
     runs = []
     if tier == 'quick':
         import concurrent.futures as cf
-        with cf.ThreadPoolExecutor(2) as ex:
+        with cf.ThreadPoolExecutor(8) as ex:
             fs = [ex.submit(one, exe, 7, '1,7,21,0', False, d, 'a'), ex.submit(one, exe, 6, '4,1', False, d, 'w')]
+            fs += [ex.submit(one, exe, 3, '4,1', False, d, 'p%d' % i, pf) for i, pf in enumerate(PREFIXES)]
             runs = [f.result() for f in fs]
     else:
         import concurrent.futures as cf
-        with cf.ThreadPoolExecutor(3) as ex:
+        with cf.ThreadPoolExecutor(8) as ex:
             fs = [ex.submit(one, exe, 8, '1,7,21,0', False, d, 'a'), ex.submit(one, exe, 8, '1,7,21,0', True, d, 'b'), ex.submit(one, exe, 7, '1,4,8,21', True, d, 'c')]
+            fs += [ex.submit(one, exe, 4, '4,1', True, d, 'p%d' % i, pf) for i, pf in enumerate(PREFIXES)]
             runs = [f.result() for f in fs]
     st = tr = pr = 0
     samples = []
@@ -51,9 +63,9 @@ def run(tier, rep):
         'exhaustive': all(r['ops'] for r in runs), 'operations': max(r['ops'] for r in runs), 'distinct_outcomes': max(r['outcomes'] for r in runs),
         'samples': samples or ['none'],
         'rule': 'breadth-first search over all sequences of the %d-operation alphabet (setters with valid/invalid arguments, add_operation(MDL|null), initialize, '
-                'shoot, reset, destroy+new) up to the stated depth, plus three auxiliary entry points (mode by valid / unknown label, set_decay_version) applied as leaves after every transition; a second run uses the window-capable mode 4 so that toallevents != 1 before reset; state = history replayed on a fresh decay0_generator, merged by the state of the '
+                'shoot, reset, destroy+new) up to the stated depth, plus three auxiliary entry points (mode by valid / unknown label, set_decay_version) applied as leaves after every transition; a second run uses the window-capable mode 4 so that toallevents != 1 before reset; four more searches start from other states than a new object (right after an initialisation refused for four different reasons on a windowed request); state = history replayed on a fresh decay0_generator, merged by the state of the '
                 'reference machine plus a sticky mark of the last refused operation (for initialize: with the state it was refused in); every transition '
-                'checks exception<->reference, all getters, defaults after reset (including every field of get_bb_params()), and the probe shot against a fresh instance configured alike' % max(r['ops'] for r in runs),
+                'checks exception<->reference, all getters, after every successful initialisation the working parameters against a fresh instance configured alike, defaults after reset (including every field of get_bb_params()), and the probe shot against a fresh instance configured alike' % max(r['ops'] for r in runs),
     })
     rep.assumptions += ['the reference machine follows the literal statement of the property (reset from any state yields a new-like object)',
                         'validity of a configuration = reference GENBBsub rules (transpiled, kernel stubbed) + README rules for the gA modes',
